@@ -1,9 +1,9 @@
-(* C09 — property theorems only.  Proofs are in C09/Proofs.v.
+(* C09 — property theorems only.  Proofs are in C09/Proofs.v, C09/Utf8.v, C09/LinkC01.v.
    v_eq v_ne v_lt v_le v_gt v_ge v_and v_or v_between v_in : the evaluators of builders.rs (C09/Model.v);
    wfv : contexts have strictly ascending keys at every depth (a BTreeMap in the code);
    ordered_pair a b : a and b are both numbers, both strings or both dates. *)
 From Coq Require Import List NArith ZArith Bool.
-From DV Require Import C09.Values C09.Model C09.Proofs C09.Utf8.
+From DV Require Import C09.Values C09.Model C09.Proofs C09.Utf8 C09.LinkC01.
 Import ListNotations.
 Open Scope Z_scope.
 
@@ -77,6 +77,74 @@ Theorem C09_number_scale : forall c e c2 e2 k, 0 <= k ->
   ncmp (c * 10 ^ k) (e - k) (c2 * 10 ^ k) (e2 - k) = ncmp c e c2 e2 /\ ncmp (c * 10) (e - 1) c e = Eq.
 Proof. exact number_scale. Qed.
 
+(* ---- the evaluator model of C01 (coq/C01/Syntax.v, written independently from the same Rust functions) IS this model ----
+   S = C01.Syntax: S.veq (eval_ternary_equality), S.binop_eval (build_eq .. build_or), S.cmp_lt / S.cmp_le, S.and3 / S.or3,
+   S.between_eval (build_between), S.in_range (eval_in_range), S.in_eval (build_in with eval_in_list, eval_in_list_in_list).
+   emb : S.value -> option value, defined on every C01 value without VUnary / VPoison at any depth (`shared`): null, booleans,
+   numbers (a decimal (neg, coef, expo) becomes the pair (signed coefficient, exponent); Dec.dcmp unfolds to ncmp), strings,
+   lists, contexts (key number k becomes the name [k]), ranges, functions (opaque).  For ALL such values, any nesting depth. *)
+Theorem C09_equality_is_evaluator_equality : forall a b a' b', emb a = Some a' -> emb b = Some b' ->
+  S.veq a b = teq a' b' /\ emb (S.binop_eval S.Eq a b) = Some (v_eq a' b') /\ emb (S.binop_eval S.Ne a b) = Some (v_ne a' b').
+Proof. exact equality_is_evaluator_equality. Qed.
+Theorem C09_orderings_are_evaluator_orderings : forall a b a' b', emb a = Some a' -> emb b = Some b' ->
+  emb (S.binop_eval S.Lt a b) = Some (v_lt a' b') /\ emb (S.binop_eval S.Le a b) = Some (v_le a' b') /\
+  emb (S.binop_eval S.Gt a b) = Some (v_gt a' b') /\ emb (S.binop_eval S.Ge a b) = Some (v_ge a' b') /\
+  emb (S.binop_eval S.And a b) = Some (v_and a' b') /\ emb (S.binop_eval S.Or a b) = Some (v_or a' b').
+Proof. exact orderings_are_evaluator_orderings. Qed.
+(* the same for the functions behind the operators; > and >= are C01's < and <= with the operands swapped *)
+Theorem C09_comparisons_are_evaluator_comparisons : forall a b a' b', emb a = Some a' -> emb b = Some b' ->
+  emb (S.cmp_lt a b) = Some (v_lt a' b') /\ emb (S.cmp_le a b) = Some (v_le a' b') /\
+  emb (S.cmp_lt b a) = Some (v_gt a' b') /\ emb (S.cmp_le b a) = Some (v_ge a' b') /\
+  emb (S.and3 a b) = Some (v_and a' b') /\ emb (S.or3 a b) = Some (v_or a' b').
+Proof. exact comparisons_are_evaluator_comparisons. Qed.
+Theorem C09_between_in_range_are_evaluator_between_in_range : forall x lo hi x' lo' hi' (lc hc : bool),
+  emb x = Some x' -> emb lo = Some lo' -> emb hi = Some hi' ->
+  emb (S.between_eval x lo hi) = Some (v_between x' lo' hi') /\
+  emb (S.in_range x lo lc hi hc) = Some (in_range x' (VRange lo' lc hi' hc)) /\
+  emb (S.in_eval x (S.VRange lo lc hi hc)) = Some (v_in x' (VRange lo' lc hi' hc)).
+Proof. exact between_in_are_evaluator_between_in. Qed.
+(* the whole `in` operator: scalars, ranges, lists (nested lists, ranges and scalars as items), list in list *)
+Theorem C09_in_is_evaluator_in : forall x r x' r', emb x = Some x' -> emb r = Some r' ->
+  emb (S.in_eval x r) = Some (v_in x' r').
+Proof. exact in_is_evaluator_in. Qed.
+(* C01's fuel is irrelevant: any fuel covering the left operand gives S.veq *)
+Theorem C09_evaluator_equality_fuel_irrelevant : forall f a b, (S.vsize a <= f)%nat -> S.teq f a b = S.veq a b.
+Proof. exact teq_fuel_irrelevant. Qed.
+(* consequently the laws above hold for the evaluator model of C01 (statements about C01's functions only).
+   swf : contexts have strictly ascending keys at every depth; s_ordered_pair a b : both numbers or both strings *)
+Theorem C09_evaluator_equality_symmetric : forall a b, swf a = true -> swf b = true -> S.veq a b = S.veq b a.
+Proof. exact S_veq_sym. Qed.
+Theorem C09_evaluator_trichotomy : forall a b, s_ordered_pair a b ->
+  s_exactly_one (S.binop_eval S.Lt a b) (S.binop_eval S.Eq a b) (S.binop_eval S.Gt a b).
+Proof. exact S_trichotomy. Qed.
+Theorem C09_evaluator_le_iff_lt_or_eq : forall a b, s_ordered_pair a b ->
+  S.cmp_le a b = S.or3 (S.cmp_lt a b) (S.of_opt (S.veq a b)).
+Proof. exact S_le_iff_lt_or_eq. Qed.
+Theorem C09_evaluator_between_is_conjunction : forall x a b, s_ordered_triple x a b ->
+  S.between_eval x a b = S.and3 (S.cmp_le a x) (S.cmp_le x b).
+Proof. exact S_between_is_conjunction. Qed.
+Theorem C09_evaluator_between_is_in_closed_range : forall x a b,
+  not_poison x = true -> not_poison a = true -> not_poison b = true ->
+  S.between_eval x a b = S.in_range x a true b true.
+Proof. exact S_between_is_in_closed_range. Qed.
+Theorem C09_evaluator_in_range_is_conjunction : forall x a b (lc rc : bool), s_ordered_triple x a b ->
+  S.in_range x a lc b rc = S.and3 ((if lc then S.cmp_le else S.cmp_lt) a x) ((if rc then S.cmp_le else S.cmp_lt) x b).
+Proof. exact S_in_range_is_conjunction. Qed.
+(* a nested C01 value and its image; 1 = 1.0 inside lists; values outside the shared part; an ordered triple of numbers with different scales *)
+Example C09_link_nonvacuous :
+  let a := S.VCtx [(1%N, S.VList [sn 1 0; S.VNull; S.VRange (sn (-5) 0) true (S.VStr [97%N]) false]); (2%N, S.VCtx [(3%N, S.VStr [233%N])])] in
+  let b := S.VCtx [(1%N, S.VList [sn 10 (-1); S.VNull; S.VRange (sn (-5) 0) true (S.VStr [97%N]) false]); (2%N, S.VCtx [(3%N, S.VStr [233%N])])] in
+  swf a = true /\ swf b = true /\
+  emb a = Some (VCtx [([1%N], VList [VNum 1 0; VNull; VRange (VNum (-5) 0) true (VStr [97%N]) false]); ([2%N], VCtx [([3%N], VStr [233%N])])]) /\
+  (exists b', emb b = Some b') /\
+  S.veq a b = Some false /\ S.veq (S.VList [sn 1 0; S.VNull]) (S.VList [sn 10 (-1); S.VNull]) = Some true /\
+  emb (S.VUnary S.CLt (sn 1 0)) = None /\ emb (S.VList [S.VPoison]) = None /\
+  s_ordered_triple (sn 15 (-1)) (sn 1 0) (sn 200 (-2)) /\
+  S.between_eval (sn 15 (-1)) (sn 1 0) (sn 200 (-2)) = S.VBool true /\
+  S.in_range (sn 200 (-2)) (sn 1 0) true (sn 2 0) false = S.VBool false /\
+  S.in_eval (sn 2 0) (S.VList [S.VList [sn 1 0]; S.VRange (sn 1 0) false (sn 20 (-1)) true]) = S.VBool true.
+Proof. exact link_nonvacuous. Qed.
+
 (* the defects of the pinned commit, kept as refutations of the original code *)
 Theorem C09_eq_orig_null_refuted : teq_orig (VNum 1 0) VNull = Some false /\ teq_orig VNull (VNum 1 0) = None.
 Proof. exact teq_orig_null_refuted. Qed.
@@ -124,3 +192,16 @@ Print Assumptions C09_eq_orig_null_refuted.
 Print Assumptions C09_eq_orig_context_refuted.
 Print Assumptions C09_far_dates_orig_refuted.
 Print Assumptions C09_nonvacuous.
+Print Assumptions C09_equality_is_evaluator_equality.
+Print Assumptions C09_orderings_are_evaluator_orderings.
+Print Assumptions C09_comparisons_are_evaluator_comparisons.
+Print Assumptions C09_between_in_range_are_evaluator_between_in_range.
+Print Assumptions C09_in_is_evaluator_in.
+Print Assumptions C09_evaluator_equality_fuel_irrelevant.
+Print Assumptions C09_evaluator_equality_symmetric.
+Print Assumptions C09_evaluator_trichotomy.
+Print Assumptions C09_evaluator_le_iff_lt_or_eq.
+Print Assumptions C09_evaluator_between_is_conjunction.
+Print Assumptions C09_evaluator_between_is_in_closed_range.
+Print Assumptions C09_evaluator_in_range_is_conjunction.
+Print Assumptions C09_link_nonvacuous.
